@@ -8,7 +8,7 @@ use serde::de::DeserializeOwned;
 use serde_json::Value;
 use std::collections::HashMap;
 use std::io::ErrorKind;
-use std::sync::atomic::{AtomicU64, Ordering};
+use std::sync::atomic::{AtomicBool, AtomicU64, Ordering};
 use std::sync::{Arc, Mutex as StdMutex};
 use tokio::io::AsyncWriteExt;
 use tokio::io::{BufReader, BufWriter};
@@ -37,6 +37,26 @@ struct AsyncClientInner {
     pending: StdMutex<PendingRequests>,
     next_id: AtomicU64,
     shutdown: StdMutex<Option<oneshot::Sender<()>>>,
+    /// Set when a request write failed or was abandoned part-way (its future
+    /// dropped): part of a frame may be on the wire or in the write buffer, so
+    /// nothing more may be written on this connection.
+    write_torn: AtomicBool,
+}
+
+/// Marks the connection unusable for writing unless the write it guards ran
+/// to completion. Dropping a call future mid-write (cancellation, an outer
+/// `timeout`) runs this guard's `Drop` with the frame only partly written.
+struct TornWriteGuard<'a> {
+    flag: &'a AtomicBool,
+    completed: bool,
+}
+
+impl Drop for TornWriteGuard<'_> {
+    fn drop(&mut self) {
+        if !self.completed {
+            self.flag.store(true, Ordering::Release);
+        }
+    }
 }
 
 impl Drop for AsyncClientInner {
@@ -113,6 +133,7 @@ impl AsyncClient {
             pending: StdMutex::new(HashMap::new()),
             next_id: AtomicU64::new(1),
             shutdown: StdMutex::new(Some(shutdown_tx)),
+            write_torn: AtomicBool::new(false),
         });
 
         spawn_response_loop(
@@ -663,8 +684,19 @@ impl AsyncClient {
 
     async fn write_request(&self, msg: &Message) -> Result<(), RepeError> {
         let mut writer = self.inner.writer.lock().await;
+        if self.inner.write_torn.load(Ordering::Acquire) {
+            return Err(RepeError::Io(std::io::Error::new(
+                ErrorKind::BrokenPipe,
+                "connection unusable: an earlier request was interrupted mid-write",
+            )));
+        }
+        let mut guard = TornWriteGuard {
+            flag: &self.inner.write_torn,
+            completed: false,
+        };
         write_message_async(&mut *writer, msg).await?;
         writer.flush().await?;
+        guard.completed = true;
         Ok(())
     }
 
